@@ -261,7 +261,7 @@ func tierParams(quick bool) (depth, split map[string]int) {
 	if quick {
 		return map[string]int{"T": 8, "S": 6, "X": 4}, map[string]int{"T": 3, "S": 6, "X": 3}
 	}
-	return map[string]int{"T": 10, "S": 8, "X": 5}, map[string]int{"T": 8, "S": 48, "X": 8}
+	return map[string]int{"T": 11, "S": 9, "X": 5}, map[string]int{"T": 8, "S": 48, "X": 8}
 }
 
 // ---- reference model -----------------------------------------------------------
@@ -784,14 +784,20 @@ func run(c *lib.Ctx) {
 	sort.SliceStable(mine, func(a, b int) bool { return mine[a].weight() < mine[b].weight() })
 	// lib.BFS must not apply its own level-1 split inside a unit.
 	c.ShardI, c.ShardN = 0, 1
+	var cut []string
 	for i, u := range mine {
 		if !global.IsZero() {
-			// An equal share of what is left for every remaining unit.
+			// A share of what is left in proportion to the estimated cost of
+			// this unit among the remaining ones.
 			left := time.Until(global)
 			if left < 0 {
 				left = 0
 			}
-			c.Deadline = time.Now().Add(left / time.Duration(len(mine)-i))
+			rest := 0.0
+			for _, v := range mine[i:] {
+				rest += v.weight()
+			}
+			c.Deadline = time.Now().Add(time.Duration(float64(left) * u.weight() / rest))
 		}
 		u := u
 		cpu0 := cpuSeconds()
@@ -806,6 +812,10 @@ func run(c *lib.Ctx) {
 			}}
 		b.Run()
 		c.Count("bfs_runs", 1)
+		if !c.Deadline.IsZero() && time.Now().After(c.Deadline) {
+			c.Count("bfs_runs_cut_by_budget", 1)
+			cut = append(cut, fmt.Sprintf("%s %s part %d/%d", u.Pass, u.Cf, u.J, u.K))
+		}
 		if tf := os.Getenv("VERIF_C12_TIMES"); tf != "" {
 			if f, err := os.OpenFile(tf, os.O_APPEND|os.O_CREATE|os.O_WRONLY, 0o644); err == nil {
 				fmt.Fprintf(f, "shard %2d unit %s %-14s %d/%d depth %d: cpu %.1fs\n", shardI, u.Pass, u.Cf, u.J, u.K, u.Depth, cpuSeconds()-cpu0)
@@ -814,6 +824,9 @@ func run(c *lib.Ctx) {
 		}
 	}
 	c.ShardI, c.ShardN = shardI, shardN
+	if len(cut) > 0 {
+		c.Note(fmt.Sprintf("cut_in_process_%d", shardI), strings.Join(cut, "; "))
+	}
 	ms := int64(cpuSeconds() * 1000)
 	c.Count("cpu_ms", ms)
 	c.Max("cpu_ms_max_shard", ms)
@@ -879,6 +892,7 @@ func main() {
 				"cpu_seconds_total":             float64(m.Counters["cpu_ms"]) / 1000,
 				"cpu_seconds_max_process":       float64(m.Maxes["cpu_ms_max_shard"]) / 1000,
 				"bfs_runs":                      m.Counters["bfs_runs"],
+				"bfs_runs_cut_by_budget":        m.Counters["bfs_runs_cut_by_budget"],
 				"skipped_boundary_landings":     m.Counters["skipped_boundary_landings"],
 				"rule": "BFS over timed histories executed on the real handleLogin (behind the method/content-type wrapper), handleLogout (behind optionalAuth), an optionalAuth-wrapped probe handler, InitAuth and authRateLimiter under the virtual clock; restart = Close + InitAuth with a fresh rate limiter on the same sessions.db. Three passes (note_plan): T throttle-only alphabet on every (maxAttempts, blockDur); S session-only alphabet on every TTL; X the full alphabet on the listed configurations. Every BFS is cut into parts by the hash of the states reached at history length 2 (3 in pass S); parts are dealt to 16 processes. A state is (failed-attempt table, in-memory session table, sessions.db content, time of day, model), see the key function for what is dropped and why. Oracle after every step: status 429+Retry-After / 403 / 200+fresh cookie against the per-address (count, windowEnd) automaton; authentication of each cookie against two-sided session bounds (must before created+TTL, must not after logout / at or after lastUse+TTL / once seen expired, also across restart); no token in the session tables that no response delivered (a blocked login must not create a session). A clock step that would land exactly on a model boundary is not taken (skipped_boundary_landings). non-trivial = blocked login, 2nd+ or blocking failure, success that clears a record, request/logout with an issued cookie, restart with sessions",
 			}
